@@ -88,6 +88,21 @@ func (s *runState) absorb() (stateArm, peerArm int) {
 	return
 }
 
+// timersAlive: while logged on both one-shot timers must be running, or the obligation they stand for (a Heartbeat
+// after an idle interval; the TestRequest / dead-peer disconnect) is silently dropped from then on.
+func (s *runState) timersAlive(when string) {
+	sn := s.l.Snap()
+	if !sn.LoggedOn {
+		return
+	}
+	if !s.armed["state"] {
+		s.vio("heartbeat-timer-dead: after %s the session is logged on (test request pending: %v) and its heartbeat timer is not running: no Heartbeat will be sent however long the session stays idle", when, sn.Pending)
+	}
+	if !s.armed["peer"] {
+		s.vio("peer-timer-dead: after %s the session is logged on and its test-request / dead-peer timer is not running", when)
+	}
+}
+
 func outsOf(l *lab.Lab, t string) []fixwire.Fields {
 	var out []fixwire.Fields
 	for _, fs := range l.OutThisStep {
@@ -163,6 +178,7 @@ func (s *runState) inbound(desc string, raw []byte, kind string, inSeq bool, req
 			s.vio("recovery-disturbed/abandoned: the recovery of ..%d was abandoned at %d when an inbound %s cancelled the pending test request", before.ResendRangeEnd, after.NextTarget, kind)
 		}
 	}
+	s.timersAlive("an inbound " + kind)
 }
 
 func (s *runState) snapName() string {
@@ -244,6 +260,7 @@ func (s *runState) expire(which string, due bool) {
 			}
 		}
 	}
+	s.timersAlive("a " + which + "-timer expiry")
 }
 
 func history(c *core.Ctx, r *core.Result, stream string, idx int, rng *rand.Rand, script []string, verbose bool) {
@@ -268,9 +285,24 @@ func history(c *core.Ctx, r *core.Result, stream string, idx int, rng *rand.Rand
 	}
 	s.hbi = l.Snap().HeartBtInt
 	s.absorb()
+	slowLogon := cf.Initiator && rng.Intn(4) == 0
+	if slowLogon && s.armed["state"] {
+		// the answer to the initiator's Logon takes longer than a heartbeat interval: the heartbeat timer armed by
+		// sending the Logon expires while the logon is still pending
+		s.now = s.deadline["state"]
+		s.armed["state"] = false
+		l.Timeout(1)
+		s.absorb()
+	}
 	l.In("Logon", s.p.Logon(1, cf.HBI))
+	s.absorb()
 	s.p.NextOut = 2
 	if !l.Snap().LoggedOn {
+		return
+	}
+	s.timersAlive("the logon")
+	if len(s.viol) > 0 {
+		r.Violate("C20/"+s.viol[0][:strings.Index(s.viol[0], ":")], fmt.Sprintf("%s; %s (slow logon answer: %v); trace tail: %s", s.viol[0], cf, slowLogon, strings.Join(l.Tail(10), " ⏎ ")), core.CaseRef{Stream: stream, Index: idx, Detail: l.Tail(30)})
 		return
 	}
 	// heartbeat interval adoption
